@@ -630,3 +630,145 @@ pub fn secret_scan(a: &Args) -> Report {
   rep.traces = 1;
   rep
 }
+
+// ---------------------------------------------------------------------------
+/// `vh cipher-check --seed S --groups N` (C03): associated data stays confidential below
+/// threshold — not in clear, not decryptable with anything in the report, and no keystream
+/// reuse between two reports of one measurement.
+pub fn cipher_check(a: &Args) -> Report {
+  let mut rep = Report::new("cipher-check");
+  let seed = a.u64("seed", 1);
+  let groups = a.u64("groups", 12);
+  let mut rng = rng_from(seed, 303);
+  let oprf = OprfServer::new(vec![0, 1, 2, 3]).expect("oprf");
+  const AUXL: [usize; 14] = [1, 2, 8, 15, 16, 17, 100, 157, 165, 166, 167, 200, 332, 500];
+  for g in 0..groups {
+    let t: u32 = rng.gen_range(3..7);
+    let lm = [0usize, 1, 8, 32, 150, 166, 170, 400][(g % 8) as usize];
+    let m = rand_bytes(&mut rng, lm);
+    let e = vec![(g % 4) as u8];
+    let src = if g % 5 == 4 { "oprf" } else { "local" };
+    // a sequence of sub-threshold reports (2 or 3) with differing associated data
+    let nrep = 2 + (g % 2) as usize;
+    let mut cl: Vec<RealClient> = Vec::new();
+    let mut pts: Vec<Vec<u8>> = Vec::new();
+    for r in 0..nrep {
+      let la = AUXL[((g as usize) * 3 + r * 5) % AUXL.len()];
+      let mut aux = rand_bytes(&mut rng, la);
+      if la >= 1 {
+        aux[0] = aux[0].wrapping_add(r as u8 + 1);
+      }
+      // same length, different content every other group (isolates the XOR question)
+      let aux = if g % 3 == 0 && r > 0 {
+        let mut b = cl[0].cfg.aux.clone().unwrap();
+        let n = b.len();
+        b[n - 1] ^= 0x55;
+        b[0] ^= 0x01;
+        b
+      } else {
+        aux
+      };
+      if let Some(c) = make_client(ClientCfg { m: m.clone(), e: e.clone(), t, aux: Some(aux), src: src.into() }, &oprf, &mut rep) {
+        cl.push(c);
+      }
+    }
+    if cl.len() < nrep {
+      continue;
+    }
+    // plaintext payloads through the public API: a group of t clients reveals r0, hence the key
+    let mut helpers: Vec<RealClient> = Vec::new();
+    for _ in 0..t {
+      if let Some(c) = make_client(ClientCfg { m: m.clone(), e: e.clone(), t, aux: None, src: src.into() }, &oprf, &mut rep) {
+        helpers.push(c);
+      }
+    }
+    let hs: Vec<Share> = helpers.iter().filter_map(|c| Share::from_bytes(&c.share_bytes)).collect();
+    let r0 = match guard(|| share_recover(&hs).map(|c| c.get_message()).map_err(|e| e.to_string())) {
+      Guard::Done(Ok(x)) => x,
+      _ => continue,
+    };
+    let mut key = vec![0u8; 16];
+    derive_ske_key(&r0, &e, &mut key);
+    for c in &cl {
+      let ct = sta_rs::Ciphertext::from_bytes(&c.ct);
+      let pt = match guard(|| ct.decrypt(&key, "star_encrypt")) {
+        Guard::Done(p) => p,
+        _ => vec![],
+      };
+      pts.push(pt);
+    }
+    for (ci, c) in cl.iter().enumerate() {
+      let bytes = &c.msg_bytes;
+      let ctx = json!({"group": g, "threshold": t, "report": ci, "measurement_len": lm,
+                       "aux_len": c.cfg.aux.as_ref().map(|a| a.len()), "source": src});
+      // (a) never in the clear
+      if let Some(aux) = &c.cfg.aux {
+        if aux.len() >= 8 {
+          rep.evaluations += 1;
+          if let Some(off) = contains(bytes, aux) {
+            rep.violation("C03", "Message::to_bytes", "aux-in-clear",
+              format!("associated data appears in the clear at offset {off}"), ctx.clone());
+          }
+        }
+      }
+      // (b) nothing carried in the report decrypts the payload
+      if pts[ci].len() >= 8 {
+        let ct = sta_rs::Ciphertext::from_bytes(&c.ct);
+        for wlen in [16usize, 32] {
+          for off in 0..bytes.len().saturating_sub(wlen) + 1 {
+            rep.evaluations += 1;
+            let w = &bytes[off..off + wlen];
+            if let Guard::Done(p) = guard(|| ct.decrypt(w, "star_encrypt")) {
+              if p == pts[ci] || (pts[ci].len() >= 16 && contains(&p, &pts[ci][pts[ci].len() - 16..]).is_some()) {
+                rep.violation("C03", "Ciphertext::new", "decryptable-with-report-value",
+                  format!("the {wlen}-byte window at offset {off} of the report decrypts the payload"), ctx.clone());
+              }
+            }
+          }
+        }
+        rep.nontrivial(format!("win:{g}:{ci}"));
+      }
+    }
+    // (c) no keystream reuse: ct_a xor ct_b never equals pt_a xor pt_b on a 16-byte window
+    //     that contains a differing plaintext byte (any constant header offset tried)
+    for i in 0..cl.len() {
+      for j in (i + 1)..cl.len() {
+        let (ca, cb) = (&cl[i].ct, &cl[j].ct);
+        let (pa, pb) = (&pts[i], &pts[j]);
+        let n = pa.len().min(pb.len());
+        if n < 16 || ca.len() < pa.len() || cb.len() < pb.len() {
+          continue;
+        }
+        let hmax = (ca.len() - pa.len()).min(cb.len() - pb.len());
+        let mut leaked: Option<(usize, usize)> = None;
+        for h in 0..=hmax {
+          for s in 0..=(n - 16) {
+            if (s..s + 16).all(|k| pa[k] == pb[k]) {
+              continue;
+            }
+            rep.evaluations += 1;
+            if (s..s + 16).all(|k| ca[h + k] ^ cb[h + k] == pa[k] ^ pb[k]) {
+              leaked = Some((h, s));
+              break;
+            }
+          }
+          if leaked.is_some() {
+            break;
+          }
+        }
+        rep.nontrivial(format!("xor:{g}:{i}:{j}"));
+        if let Some((h, s)) = leaked {
+          rep.violation("C03", "Ciphertext::new", "keystream-reuse",
+            format!("two reports of one measurement: ciphertext difference equals plaintext difference on payload bytes {s}..{} (header {h})", s + 16),
+            json!({"group": g, "threshold": t, "reports": [i, j], "aux_lens": [cl[i].cfg.aux.as_ref().map(|a| a.len()), cl[j].cfg.aux.as_ref().map(|a| a.len())], "source": src}));
+        }
+      }
+    }
+    if rep.samples.len() < 3 {
+      rep.sample(json!({"group": g, "threshold": t, "reports_below_threshold": nrep, "measurement_len": lm,
+        "aux_lens": cl.iter().map(|c| c.cfg.aux.as_ref().map(|a| a.len())).collect::<Vec<_>>(), "report_len": cl[0].msg_bytes.len()}));
+    }
+  }
+  rep.traces = 1;
+  rep
+}
